@@ -286,6 +286,7 @@ def run(tier):
     from harness import probes
     probes.discriminator_probe(R, {'mutation', 'options'})
     probes.constructor_probe(R)
+    probes.stdlib_round_trip_probe(R, aspects=("no_copy",))
     sharing_probe(R)
     return R.finish(
         rule="every deserialization case is re-run with no_copy flipped, through the precomputed deserialization_method, "
